@@ -1296,12 +1296,11 @@ impl<Sink: TokenSink> XmlTokenizer<Sink> {
         // FIXME: the spec says we should error as soon as the name is finished.
         // FIXME: linear time search, do we care?
         let dup = {
-            let current_attr_name = self.current_attr_name.borrow();
-            let name = &current_attr_name[..];
+            let qname = process_qname(self.current_attr_name.borrow().clone());
             self.current_tag_attrs
                 .borrow()
                 .iter()
-                .any(|a| &*a.name.local == name)
+                .any(|a| a.name == qname)
         };
 
         if dup {
@@ -1318,7 +1317,7 @@ impl<Sink: TokenSink> XmlTokenizer<Sink> {
                 value: replace(&mut self.current_attr_value.borrow_mut(), StrTendril::new()),
             };
 
-            if qname.local == local_name!("xmlns")
+            if (qname.prefix.is_none() && qname.local == local_name!("xmlns"))
                 || qname.prefix == Some(namespace_prefix!("xmlns"))
             {
                 self.current_tag_attrs.borrow_mut().insert(0, attr);
